@@ -236,6 +236,16 @@ CHECKS = {
 PENDING_REASON = "not claimed"
 
 
+ROUND7 = {
+    "C01": " Round 7: a directed family of reference chains (aliases of aliases, two and three links, @ and plain names mixed, 12 kinds of value at 20 consuming positions) is compiled as well; accepted members must not crash.",
+    "C03": " Round 7: the schemas / recinst families and half of the random composites are compiled a second time with every declared name, @references included, respelled with the other identifier characters ($, -, _, digits).",
+    "C05": " Round 7: a fourth trivia style cycles through 13 block-comment shapes (runs of stars at either end and inside, slashes, several lines, adjacent comments; only shapes the pinned lexer takes as one comment).",
+    "C08": " Round 7: the Scopes family has members in which the imported module imports a third module unqualified and does not declare the contested name itself (imports are not transitive).",
+    "C12": " Round 7: the tails of the family members also go through the other public entry points (expression, term, statement, declaration, content, transfer) with and without the memo table; result, end cursor, tree and error (message and position) must be equal - `program` discards the errors of its inner productions.",
+    "C14": " Round 7: the base's security list holds an empty requirement object besides a non-empty one.",
+}
+
+
 def main():
     props = [json.loads(l) for l in open(os.path.join(ROOT, "properties.jsonl"))]
     try:
@@ -273,7 +283,7 @@ def main():
                 "evidence_file": "evidence/%s.json" % pid,
                 "replay_cmd_template": "./check %s --replay {path}" % pid,
                 "engine": "tlc",
-                "level_claimed": {"category": "model_checking", "text": c["text"], "design_ref": c["design_ref"]},
+                "level_claimed": {"category": "model_checking", "text": c["text"] + ROUND7.get(pid, ""), "design_ref": c["design_ref"]},
                 "level_note": c["note"],
                 "technique": c["technique"],
             })
